@@ -51,7 +51,7 @@ def run(tier, seed, which="C08"):
             add("%s_long_L%d" % (cname, L), s, rng.choice([2, 3, 4]), 5, rng.choice([2, 4, 16]))
     # many copies of a single-letter string: the regime in which gap costs and substitution scores scale with the group sizes
     for cname, ch, tys in (("allX", "X", [5]), ("allN", "N", [0, 0, 2, 5]), ("allB", "B", [5]), ("allA", "A", [0, 1, 2, 5]), ("allW", "W", [5]), ("allL", "L", [3, 4, 5])):
-        for k, L in ([(300, 40), (500, 12)] if tier == "quick" else [(258, 700), (300, 40), (400, 10), (500, 5), (500, 60), (1000, 20)]):
+        for k, L in ([(300, 40), (500, 12), (480, 120)] if tier == "quick" else [(258, 700), (300, 40), (400, 10), (440, 60), (480, 120), (500, 5), (500, 60), (500, 2000), (1000, 20), (1000, 200)]):
             add("%s_many_L%d_k%d" % (cname, L, k), ch * L, k, rng.choice(tys), rng.choice([1, 4, 16]))
     V.sample(dict(group=groups[0]["gid"], seq=groups[0]["members"][0]["seqs"][0][:80], copies=len(groups[0]["members"][0]["seqs"])))
     rel.run_groups(V, groups, wd, per_batch=6, timeout=900)
